@@ -289,7 +289,7 @@ def init_prop_data(sysd, seed):
 
 # ------------------------------------------------------------------------------------------ Hubbard / CPMC systems
 def make_hubbard(rng, lattice, nelec, u, dt, prop_kind="cpmc", trial_kind="uhf", n_walkers=6, u_1=0.0,
-                 poor_trial=False, proxied=True):
+                 poor_trial=False, proxied=True, twist=0.0):
     """lattice Hamiltonian set up as examples/hubbard.ipynb does: h1 = -adjacency, the on-site U as
     Cholesky vectors in ham_data['chol'], ham_data['u'] = U; propagator/trial of the requested kind"""
     import jax.numpy as jnp
@@ -297,6 +297,9 @@ def make_hubbard(rng, lattice, nelec, u, dt, prop_kind="cpmc", trial_kind="uhf",
     n = lattice.n_sites
     adj = np.asarray(lattice.create_adjacency_matrix(), dtype=float)
     h1 = -adj
+    if twist:      # twisted boundary condition: complex Hermitian hopping, hence complex trial orbitals and overlap ratios
+        sgn = np.sign(np.subtract.outer(np.arange(n), np.arange(n))).T
+        h1 = h1 * np.exp(1j * twist * sgn)
     chol = np.zeros((n, n, n))
     for i in range(n):
         chol[i, i, i] = np.sqrt(u)
@@ -315,7 +318,7 @@ def make_hubbard(rng, lattice, nelec, u, dt, prop_kind="cpmc", trial_kind="uhf",
     if trial_kind == "uhf":
         T = wavefunctions.uhf_cpmc if prop_kind != "phaseless" else wavefunctions.uhf
         wd["mo_coeff"] = [jnp.array(qa[:, : nelec[0]]), jnp.array(qb[:, : nelec[1]])]
-        wd["rdm1"] = jnp.array([qa[:, : nelec[0]] @ qa[:, : nelec[0]].T, qb[:, : nelec[1]] @ qb[:, : nelec[1]].T])
+        wd["rdm1"] = jnp.array([qa[:, : nelec[0]] @ qa[:, : nelec[0]].conj().T, qb[:, : nelec[1]] @ qb[:, : nelec[1]].conj().T])
     else:
         T = wavefunctions.ghf_cpmc
         C = np.zeros((2 * n, nelec[0] + nelec[1]))
